@@ -65,6 +65,16 @@ impl Engine for SignSim {
                 slots[0].custody = Custody::Remote;
             }
         }
+        if mode == "plain" || mode == "faults" {
+            // now and then the HSM holds an RSA key larger than anything a back end would load
+            // (drawn from a stream of its own so that every other draw stays what it was)
+            let mut r2 = Rng::new(run_seed ^ 0x9216_9216);
+            for s in slots.iter_mut() {
+                if s.custody == Custody::Remote && s.spec.alg.is_rsa() && r2.chance(1, 6) {
+                    s.spec.material = simcore::sha256::hex(&[crate::keys::RSA_POOL_REMOTE_ONLY]);
+                }
+            }
+        }
         let n_ops = r.range(3, cfg.max_ops as u64) as usize;
         let mut ops = gen_ops(&mut r, slots.len(), n_ops, crypto);
         // the convenience entry point with a key rcgen generates itself (not reproducible, so it
@@ -108,6 +118,12 @@ impl Engine for SignSim {
 
     fn execute(t: &SignTrace) -> Outcome {
         let mut o = Outcome::default();
+        if t.hash_seed % 8 == 0 {
+            oid_probe(&mut o);
+            if o.violation.is_some() {
+                return o;
+            }
+        }
         let base = scenario(t, &t.plan, t.rng_fault.as_ref(), &mut o, "base");
         if !t.enumerate || o.violation.is_some() {
             o.nontrivial = o.counters.get("signer_faults_fired_err").copied().unwrap_or(0)
@@ -602,4 +618,91 @@ pub fn check_artefact(w: &World, a: &Artefact, o: &mut Outcome) -> Result<(), Fa
         }
     }
     Ok(())
+}
+
+
+/// Signature algorithm OIDs next to the registered seven: other PKCS#1 leaves (MD2 .. SHA-1,
+/// RSASSA-PSS, SHA-224, SHA-512/224, SHA-512/256), other ECDSA digests, key-type OIDs,
+/// Ed448, X25519, the SHA-3 family, SM2.
+const NEIGHBOUR_OIDS: [&[u64]; 24] = [
+    &[1, 2, 840, 113549, 1, 1, 1],
+    &[1, 2, 840, 113549, 1, 1, 2],
+    &[1, 2, 840, 113549, 1, 1, 3],
+    &[1, 2, 840, 113549, 1, 1, 4],
+    &[1, 2, 840, 113549, 1, 1, 5],
+    &[1, 2, 840, 113549, 1, 1, 10],
+    &[1, 2, 840, 113549, 1, 1, 14],
+    &[1, 2, 840, 113549, 1, 1, 15],
+    &[1, 2, 840, 113549, 1, 1, 16],
+    &[1, 2, 840, 10045, 2, 1],
+    &[1, 2, 840, 10045, 4, 1],
+    &[1, 2, 840, 10045, 4, 3, 1],
+    &[1, 2, 840, 10045, 4, 3, 4],
+    &[1, 3, 101, 110],
+    &[1, 3, 101, 113],
+    &[2, 16, 840, 1, 101, 3, 4, 3, 9],
+    &[2, 16, 840, 1, 101, 3, 4, 3, 10],
+    &[2, 16, 840, 1, 101, 3, 4, 3, 11],
+    &[2, 16, 840, 1, 101, 3, 4, 3, 12],
+    &[2, 16, 840, 1, 101, 3, 4, 3, 13],
+    &[2, 16, 840, 1, 101, 3, 4, 3, 14],
+    &[2, 16, 840, 1, 101, 3, 4, 3, 15],
+    &[2, 16, 840, 1, 101, 3, 4, 3, 16],
+    &[1, 2, 156, 10197, 1, 501],
+];
+
+/// Whatever algorithm the registry hands out for an OID is an algorithm a caller can sign with.
+/// For every OID outside the harness's own table that `SignatureAlgorithm::from_oid` accepts,
+/// every kind of key is offered to it; where a key loads, the self-signed certificate it
+/// produces must be one OpenSSL accepts under that key. (On the tree as given the registry
+/// offers nothing beyond the table, and this does no signing at all.)
+fn oid_probe(o: &mut Outcome) {
+    let known: Vec<&[u64]> = crate::keys::remote_algs().iter().map(|a| a.sig_oid_arcs()).collect();
+    for oid in NEIGHBOUR_OIDS.iter() {
+        if known.contains(oid) {
+            continue;
+        }
+        o.count("oid_probe_lookups", 1);
+        let alg = match rcgen::SignatureAlgorithm::from_oid(oid) {
+            Ok(a) => a,
+            Err(_) => continue,
+        };
+        o.count("oid_probe_accepted_outside_table", 1);
+        let _ = alg;
+        #[cfg(feature = "crypto")]
+        for key_alg in [Alg::RsaSha256, Alg::P256, Alg::P384, Alg::P521, Alg::Ed25519] {
+            let spec = crate::keys::KeySpec { alg: key_alg, material: simcore::sha256::hex(&[if key_alg.is_rsa() { 0u8 } else { 7u8 }; 32]) };
+            let key = crate::keys::SimKey::from_spec(&spec);
+            let pk8 = pki_types::PrivatePkcs8KeyDer::from(key.pkcs8.clone());
+            let kp = match rcgen::KeyPair::from_pkcs8_der_and_sign_algo(&pk8, alg) {
+                Ok(k) => k,
+                Err(_) => continue,
+            };
+            o.count("oid_probe_keys_loaded", 1);
+            let mut p = rcgen::CertificateParams::default();
+            p.distinguished_name.push(rcgen::DnType::CommonName, "oid probe");
+            let der = match std::panic::catch_unwind(std::panic::AssertUnwindSafe(|| p.self_signed(&kp))) {
+                Ok(Ok(c)) => c.der().to_vec(),
+                Ok(Err(_)) => continue,
+                Err(_) => {
+                    o.violate("c01-panic", format!("self-signing under the algorithm from_oid({oid:?}) returns panicked: {}", simcore::engine::last_panic()));
+                    return;
+                }
+            };
+            let ok = openssl::x509::X509::from_der(&der)
+                .ok()
+                .and_then(|x| x.public_key().ok().and_then(|pk| x.verify(&pk).ok()))
+                .unwrap_or(false);
+            if !ok {
+                o.violate(
+                    "c01-invalid-signature",
+                    format!(
+                        "from_oid({oid:?}) offers an algorithm; a {} key loads under it, and the self-signed certificate it yields is not one OpenSSL accepts under that key",
+                        key_alg.name()
+                    ),
+                );
+                return;
+            }
+        }
+    }
 }
